@@ -233,7 +233,7 @@ func c08Analyse(lpkg *listedPackage, pkg *types.Package, file *ast.File, info *t
 	}
 	symx.MapOrder(true)
 	// the package's members (a handful) in every explored order; the small API tables in insertion order
-	symx.MapOrderOpts(5, tier(0, 6), true)
+	symx.MapOrderOpts(5, 0, true)
 	inspector.recordReflection(ssaPkg)
 	symx.MapOrder(false)
 	return inspector.result
